@@ -416,7 +416,8 @@ def correspond(ctx):
     stream_dependent(ctx)
     stream_fix_model(ctx)
     stream_reader_rounds(ctx)
-    ctx.cov['programs'] += 2   # fix_stereo, postprocess_molecule retry rounds vs Model/StereoFix.lean
+    stream_diff_model(ctx)
+    ctx.cov['programs'] += 3   # fix_stereo, postprocess_molecule retry rounds vs Model/StereoFix.lean; __differentiation reference choice vs Model/StereoDiff.lean
     ctx.cov['programs'] += 3   # _chiral_morgan/__differentiation through ==/str, fix_stereo restore rounds, postprocess_molecule retry rounds
     ctx.cov['programs'] += 3   # ring_attached_cumulenes / ring linkers via chiral_*, add_wedge allene branch, _wedge_map allene orders
     ctx.cov['programs'] += 3   # add_atom_stereo, add_cis_trans_stereo, clean_stereo through the cache layer
@@ -3598,3 +3599,84 @@ def stream_reader_rounds(ctx):
                 real = 'ok ' + ' '.join(':'.join(map(str, u)) for u in _fx_units_now(mol))
                 st.add(' '.join(map(str, line)), real, {'kind': 'reader-rounds', 'smiles': smi})
     _fx_compare(ctx, st, False)
+
+
+# ---- K: the reference pair and mark `__differentiation` computes, against Model/StereoDiff.lean (driver op `df`) -----------
+
+def stream_diff_model(ctx):
+    """K: every call `__differentiation` makes to `_translate_cis_trans_sign` / `_translate_allene_sign` (arguments = the two
+    reference substituents it chose, result = the mark) vs `diffMark` fed with the environment tuple, the classes (`morgan`, read
+    from the caller's frame at the moment of the call), the hydrogens and the stored label"""
+    import sys
+    from chython import smiles, MoleculeContainer
+    st = Stream(ctx, 'differentiation_ref')
+    rng = ctx.rng
+    rec = []
+    o_ct, o_al = MoleculeContainer._translate_cis_trans_sign, MoleculeContainer._translate_allene_sign
+
+    def note(self, ends, stored, nn, nm, run):
+        f = sys._getframe(2)
+        inside = f.f_code.co_name.endswith('__differentiation')
+        try:
+            r = run()
+            res = f'ok {nn} {nm} {int(r)}'
+        except Exception as e:
+            if inside:
+                rec.append((ends, None, None, stored, f'err {type(e).__name__}'))
+            raise
+        if inside:
+            morgan = f.f_locals['morgan']
+            rec.append((ends, [morgan.get(x) if x is not None else None for x in ends], lst(h_atoms(self)), stored, res))
+        return r
+
+    def spy_ct(self, n, m, nn, nm, s=None):
+        sc = self.stereogenic_cis_trans
+        ends = sc[(n, m)] if (n, m) in sc else sc.get((m, n))
+        i, j = self._stereo_cis_trans_centers[n]
+        return note(self, ends, self._bonds[i][j].stereo, nn, nm, lambda: o_ct(self, n, m, nn, nm, s))
+
+    def spy_al(self, c, nn, nm, s=None):
+        return note(self, self.stereogenic_allenes.get(c), self._atoms[c].stereo, nn, nm, lambda: o_al(self, c, nn, nm, s))
+
+    inputs = []
+    for name in dep_names():
+        if not any(k in name.split(':')[1:] for k in ('d2', 'd3', 'd3n', 'd4', 'sd3', 'a4', 'sa4')):
+            continue
+        spec = dep_spec(name)
+        els = [('c', c) for c in spec.centres] + [('d', d) for d in spec.dbonds] + [('a', c) for c in spec.allenes]
+        masks = list(range(1 << len(els)))
+        if ctx.quick:
+            masks = rng.sample(masks, 3)
+        for mask in masks:
+            pick = [e for i, e in enumerate(els) if mask >> i & 1]
+            sp = flip_subset(spec, {x for t, x in pick if t == 'c'}, {x for t, x in pick if t == 'd'}, {x for t, x in pick if t == 'a'})
+            inputs += [smi for smi, *_ in spellings(sp, rng, 2 if ctx.quick else 6)]
+    inputs += FX_EXTRA + ['C/C=C/C(O)/C=C/C', 'C/C=C/C(O)/C=C\\C', 'C/C=C\\C(/C=C/C)=C/C', 'F/C=C/C(/C=C/F)(/C=C\\F)/C=C\\F',
+                          'CC(F)=[C@]=C(Cl)C(O)C(Cl)=[C@@]=C(C)F', 'C/C=C/C=C/C=C/C', 'F/C(C)=C/[C@H](O)/C=C(/C)F']
+    MoleculeContainer._translate_cis_trans_sign = spy_ct
+    MoleculeContainer._translate_allene_sign = spy_al
+    try:
+        for smi in inputs:
+            del rec[:]
+            try:
+                m = smiles(smi)
+                str(m)
+                m.fix_stereo()
+                str(m)
+            except Exception as e:
+                ctx.dist(f'differentiation-skip:{type(e).__name__}')
+                continue
+            for ends, cls, hs, stored, res in rec:
+                if ends is None or cls is None:
+                    ctx.broke('correspondence', 'differentiation_ref', f'{smi!r}: call inside __differentiation without environment / raised: {res}')
+                    continue
+                line = ['df'] + [(-1 if x is None else x) for x in ends]
+                for x, c in zip(ends, cls):
+                    line += [int(c is not None), c if c is not None else 0]
+                line += hs + [tri(stored)]
+                st.add(' '.join(map(str, line)), res, {'kind': 'differentiation', 'smiles': smi})
+    finally:
+        MoleculeContainer._translate_cis_trans_sign = o_ct
+        MoleculeContainer._translate_allene_sign = o_al
+    ctx.dist('differentiation-calls', len(st.req))
+    st.run()
